@@ -100,7 +100,7 @@ func (d *Dumper) obj(v reflect.Value, path string, parent interface{}) map[strin
 		}
 		d.visits++
 		if first, dup := d.Seen[p]; dup && first != path {
-			if d.visits > 40000 {
+			if d.visits > 2500 {
 				// a schema graph made of groupings that use each other many times over is walked in full up to a
 				// point; from there on an object that was walked before is not walked again (the number of paths
 				// through such a graph grows exponentially, the number of objects does not)
